@@ -57,16 +57,13 @@ theorem isSingleNode_spec (b : LB α) (n : Nat) (hrf : b.r ≤ b.f) (hn : 0 < n)
 /-- after `recalLen(-n)` with `n > 0` the peek cache is empty -/
 theorem consumeLen_cache (b : LB α) (n : Nat) (hn : 0 < n) (c : List α) (cp : Nat)
     (h : (b.consumeLen n).cachePeek = some (c, cp)) : c = [] := by
-  unfold LB.consumeLen at h
-  simp only at h
+  simp only [LB.consumeLen] at h
   split at h
-  · split at h
-    · cases h; rfl
-    · rename_i hc
-      cases h
-      simp only [hn, true_and, Nat.not_lt, Nat.le_zero_eq] at hc
-      exact List.eq_nil_of_length_eq_zero hc
   · cases h
+  · rename_i hs
+    simp only [LB.cacheStale, h] at hs
+    have : ¬ (n > 0 ∧ c.length > 0) := by simpa using hs
+    exact List.eq_nil_of_length_eq_zero (by omega)
 
 /-- The refinement relation after a consuming read: the chain suffix at `r0` (where `isSingleNode`
 left `read`) was advanced to `suf`, `read` moved `k` nodes on, and `n` stream entries went away. -/
